@@ -31,7 +31,7 @@ def run(ctx):
     for r, d in (("R02.1", "values travel verbatim from the token to the stored result; split at the first '='"),
                  ("R02.2", "list-valued results grow only by appending"),
                  ("R02.3", "value taken from the `=` part or the next value token; the extra advance exactly then"),
-                 ("R02.4", "the token regex does not constrain the value part")):
+                 ("R02.4", "the token syntax check (regex literal or character comparisons) does not constrain the value part")):
         ctx.rule(r, d)
 
     # ---- R02.1a: update_value stores a carrier of arg.value()
@@ -305,6 +305,24 @@ def run(ctx):
                             ctx.broken("R02.4", c, "value-part-unconstrained", "regex outside the modelled subset: %s" % ex, (c, n.get("ln")))
                         except regexlang.SyntaxError_ as ex:
                             ctx.bad("R02.4", c, "value-part-unconstrained", "malformed regex literal: %s" % ex, (c, n.get("ln")))
+    if nlit == 0:
+        # the check written out by hand (character comparisons): decided on the finite abstraction of the token space (A10)
+        from .common import token_syntax_by_hand, show_token
+        S = regexlang.compile(SPEC)
+        for c in ctors:
+            if len(c.params) != 1 or "string" not in (c.params[0].get("type") or "") or not any(c.is_noreturn(b) for b in c.blocks):
+                continue
+            nlit += 1
+            res, why = token_syntax_by_hand(ctx, c)
+            if res is None:
+                ctx.broken("R02.4", c, "value-part-unconstrained", "the token check is outside the finite token abstraction: %s" % why, c)
+                continue
+            cex = sorted((t for t, v in res["verdicts"].items() if v[0] != "accept" and S.accepts(t)), key=lambda t: (len(t), t))
+            ctx.check(not cex, "R02.4", c, "value-part-unconstrained",
+                      "the token check refuses `%s` (%s): a well-formed name followed by '=' does not take every byte string as its value"
+                      % (show_token(cex[0], res["other"]) if cex else "", res["verdicts"][cex[0]][1] if cex else ""), (c, (res["verdicts"][cex[0]][2] or {}).get("ln") if cex else None),
+                      why_ok="all %d abstract tokens (bytes %s + any other, length <= %d; reads up to index %d, lengths compared with up to %d) in L(%s) are accepted"
+                      % (len(res["verdicts"]), "".join(chr(b) for b in res["alphabet"][:-1]), res["length"], res["K"], res["C"], SPEC))
     ctx.need("R02.4", "validation regex literal", nlit, 1)
     ctx.trust("ECMAScript `.` matches any character except line terminators (Appendix D.8)")
     # ---- R02.6: an occurrence count per toggle - C11's counting rules re-evaluated (count reset to 0, one increment of the required form per token)
